@@ -460,8 +460,8 @@ func VerifClose(in VerifCloseIn, wait func()) (out VerifCloseOut) {
 	defer cancel()
 
 	peer := persp.Opposite()
-	var rstr *Stream       // incoming bidi stream (Read)
-	var wstr *Stream       // outgoing bidi stream (Write)
+	var rstr, rstr2 *Stream // incoming bidi streams (Read)
+	var wstr, wstr2 *Stream // outgoing bidi streams (Write)
 	var urstr *ReceiveStream
 	big := make([]byte, 3*int(protocol.MaxPacketBufferSize))
 
@@ -471,6 +471,10 @@ func VerifClose(in VerifCloseIn, wait func()) (out VerifCloseOut) {
 		if _, err := c.streamsMap.getReceiveStream(id); err == nil {
 			rstr, _ = c.streamsMap.AcceptStream(ctx)
 		}
+		id2 := protocol.StreamNum(2).StreamID(protocol.StreamTypeBidi, peer)
+		if _, err := c.streamsMap.getReceiveStream(id2); err == nil {
+			rstr2, _ = c.streamsMap.AcceptStream(ctx)
+		}
 	}
 	if want["readuni"] {
 		id := protocol.StreamNum(1).StreamID(protocol.StreamTypeUni, peer)
@@ -478,13 +482,14 @@ func VerifClose(in VerifCloseIn, wait func()) (out VerifCloseOut) {
 			urstr, _ = c.streamsMap.AcceptUniStream(ctx)
 		}
 	}
-	// one outgoing bidirectional stream allowed, opened, for Write; the limit is then reached
-	c.streamsMap.HandleMaxStreamsFrame(&wire.MaxStreamsFrame{Type: protocol.StreamTypeBidi, MaxStreamNum: 1})
+	// two outgoing bidirectional streams allowed, opened, for Write; the limit is then reached
+	c.streamsMap.HandleMaxStreamsFrame(&wire.MaxStreamsFrame{Type: protocol.StreamTypeBidi, MaxStreamNum: 2})
 	wstr, _ = c.streamsMap.OpenStream()
+	wstr2, _ = c.streamsMap.OpenStream()
 	for i := 0; i < in.QueuedDatagrams; i++ {
 		c.datagramQueue.HandleDatagramFrame(&wire.DatagramFrame{Data: []byte{byte(i)}})
 	}
-	if want["senddgram"] {
+	if want["senddgram"] || want["senddgram2"] {
 		for i := 0; i < maxDatagramSendQueueLen; i++ {
 			_ = c.datagramQueue.Add(&wire.DatagramFrame{Data: []byte{1}})
 		}
@@ -517,12 +522,29 @@ func VerifClose(in VerifCloseIn, wait func()) (out VerifCloseOut) {
 		_, err := wstr.Write(big)
 		return err
 	})
-	start("accept", func() error { _, err := c.streamsMap.AcceptStream(ctx); return err })
-	start("acceptuni", func() error { _, err := c.streamsMap.AcceptUniStream(ctx); return err })
-	start("open", func() error { _, err := c.streamsMap.OpenStreamSync(ctx); return err })
-	start("openuni", func() error { _, err := c.streamsMap.OpenUniStreamSync(ctx); return err })
-	start("rcvdgram", func() error { _, err := c.datagramQueue.Receive(ctx); return err })
-	start("senddgram", func() error { return c.datagramQueue.Add(&wire.DatagramFrame{Data: []byte{2}}) })
+	start("read2", func() error {
+		if rstr2 == nil {
+			return errors.New("setup")
+		}
+		_, err := rstr2.Read(make([]byte, 10))
+		return err
+	})
+	start("write2", func() error {
+		if wstr2 == nil {
+			return errors.New("setup")
+		}
+		_, err := wstr2.Write(big)
+		return err
+	})
+	// several callers of the same kind block on the same object
+	for _, sfx := range []string{"", "2", "3"} {
+		start("accept"+sfx, func() error { _, err := c.streamsMap.AcceptStream(ctx); return err })
+		start("acceptuni"+sfx, func() error { _, err := c.streamsMap.AcceptUniStream(ctx); return err })
+		start("open"+sfx, func() error { _, err := c.streamsMap.OpenStreamSync(ctx); return err })
+		start("openuni"+sfx, func() error { _, err := c.streamsMap.OpenUniStreamSync(ctx); return err })
+		start("rcvdgram"+sfx, func() error { _, err := c.datagramQueue.Receive(ctx); return err })
+		start("senddgram"+sfx, func() error { return c.datagramQueue.Add(&wire.DatagramFrame{Data: []byte{2}}) })
+	}
 	wait()
 	mu.Lock()
 	out.StillBlockedBefore = len(done) == 0
@@ -618,6 +640,7 @@ func VerifClose(in VerifCloseIn, wait func()) (out VerifCloseOut) {
 	// release whatever a broken close left blocked, so the bubble can end
 	cancel()
 	verifForceRelease(c, rstr, wstr)
+	verifForceRelease(c, rstr2, wstr2)
 	if urstr != nil {
 		urstr.closeForShutdown(errors.New("verif cleanup"))
 	}
